@@ -78,7 +78,12 @@ pub enum TOp {
 pub enum Scenario {
     Budget { limit: usize, threads: Vec<Vec<BOp>> },
     Locks { threads: Vec<Vec<LOp>> },
-    Cache { threads: Vec<Vec<COp>> },
+    Cache {
+        threads: Vec<Vec<COp>>,
+        /// entries per shard (cache capacity = 64 x this)
+        #[serde(default = "one")]
+        per_shard: usize,
+    },
     Commit { tables: usize, with_index: bool, threads: Vec<Vec<TOp>> },
 }
 
@@ -95,7 +100,7 @@ impl Scenario {
         match self {
             Scenario::Budget { threads, .. } => threads.len(),
             Scenario::Locks { threads } => threads.len(),
-            Scenario::Cache { threads } => threads.len(),
+            Scenario::Cache { threads, .. } => threads.len(),
             Scenario::Commit { threads, .. } => threads.len(),
         }
     }
@@ -141,9 +146,9 @@ pub fn signature(s: &Scenario) -> Vec<(String, String)> {
             let reads = threads.iter().any(|t| t.iter().any(|o| matches!(o, LOp::Read(_))));
             vec![("write_multi".into(), multi.to_string()), ("readers".into(), reads.to_string())]
         }
-        Scenario::Cache { threads } => {
+        Scenario::Cache { threads, per_shard } => {
             let evict = threads.iter().any(|t| t.iter().any(|o| matches!(o, COp::EvictAll)));
-            vec![("evict_all".into(), evict.to_string())]
+            vec![("evict_all".into(), evict.to_string()), ("per_shard".into(), per_shard.to_string())]
         }
         Scenario::Commit { tables, with_index, threads } => {
             let shared = threads.iter().any(|t| t.iter().any(|o| matches!(o, TOp::Txn { update_shared: true, .. })));
@@ -255,13 +260,20 @@ pub fn generate(profile: &str, rng: &mut Rng, thorough: bool) -> Scenario {
         "cache" => {
             let nthreads = if rng.chance(1, 3) { 3 } else { 2 };
             // keys colliding in one or two shards (64 shards, one entry each): same (file*31+page) % 64
-            let keys: Vec<(u32, u32)> = vec![(1, 0), (1, 64), (1, 128), (2, 33), (1, 1)];
+            // per-shard capacity 1, 2 or 4; with more than one entry per shard the keys are five pages
+            // of one shard (eviction order, index fix-up after removal) plus one of another shard
+            let per_shard = *rng.pick(&[1usize, 1, 2, 4]);
+            let keys: Vec<(u32, u32)> = if per_shard == 1 {
+                vec![(1, 0), (1, 64), (1, 128), (2, 33), (1, 1)]
+            } else {
+                vec![(1, 0), (1, 64), (1, 128), (1, 192), (1, 384), (1, 320), (1, 1)]
+            };
             let mut threads = vec![];
             for _ in 0..nthreads {
-                let n = rng.range(3, 5) as usize;
+                let n = if per_shard == 1 { rng.range(3, 5) } else { rng.range(4, 8) } as usize;
                 let mut ops = vec![];
                 for _ in 0..n {
-                    let span = if rng.chance(3, 4) { 3 } else { keys.len() };
+                    let span = if per_shard > 1 { keys.len() } else if rng.chance(3, 4) { 3 } else { keys.len() };
                     let key = keys[rng.usize_below(span)];
                     ops.push(match rng.below(8) {
                         0..=4 => COp::Pin { key, write: rng.chance(1, 2) },
@@ -271,7 +283,7 @@ pub fn generate(profile: &str, rng: &mut Rng, thorough: bool) -> Scenario {
                 }
                 threads.push(ops);
             }
-            Scenario::Cache { threads }
+            Scenario::Cache { threads, per_shard }
         }
         _ => {
             let nthreads = if rng.chance(1, 3) { 3 } else { 2 };
@@ -326,7 +338,7 @@ pub fn shrink(s: &Scenario) -> Vec<Scenario> {
     match s {
         Scenario::Budget { limit, threads } => drop_variants(threads).into_iter().map(|t| Scenario::Budget { limit: *limit, threads: t }).collect(),
         Scenario::Locks { threads } => drop_variants(threads).into_iter().map(|t| Scenario::Locks { threads: t }).collect(),
-        Scenario::Cache { threads } => drop_variants(threads).into_iter().map(|t| Scenario::Cache { threads: t }).collect(),
+        Scenario::Cache { threads, per_shard } => drop_variants(threads).into_iter().map(|t| Scenario::Cache { threads: t, per_shard: *per_shard }).collect(),
         Scenario::Commit { tables, with_index, threads } => {
             let mut out: Vec<Scenario> = drop_variants(threads).into_iter().map(|t| Scenario::Commit { tables: *tables, with_index: *with_index, threads: t }).collect();
             if *with_index {
@@ -365,7 +377,7 @@ pub fn execute(s: &Scenario, probes: &Probes) {
     match s {
         Scenario::Budget { limit, threads } => run_budget(*limit, threads, probes),
         Scenario::Locks { threads } => run_locks(threads, probes),
-        Scenario::Cache { threads } => run_cache(threads, probes),
+        Scenario::Cache { threads, per_shard } => run_cache(threads, *per_shard, probes),
         Scenario::Commit { tables, with_index, threads } => crate::scen_commit::run_commit(*tables, *with_index, threads, probes),
     }
 }
@@ -527,10 +539,14 @@ fn key_of_pattern(b: u8, keys: &[(u32, u32)]) -> Option<(u32, u32)> {
     None
 }
 
-fn run_cache(threads: &[Vec<COp>], probes: &Probes) {
+fn one() -> usize {
+    1
+}
+
+fn run_cache(threads: &[Vec<COp>], per_shard: usize, probes: &Probes) {
     use turdb::storage::{PageCache, PageKey};
     let budget = Arc::new(MemoryBudget::with_limit(4 * 1024 * 1024));
-    let cache = Arc::new(PageCache::with_budget(64, Some(budget.clone())).expect("cache"));
+    let cache = Arc::new(PageCache::with_budget(64 * per_shard.max(1), Some(budget.clone())).expect("cache"));
     let all_keys: Vec<(u32, u32)> = {
         let mut v = vec![];
         for t in threads {
@@ -618,10 +634,24 @@ fn run_cache(threads: &[Vec<COp>], probes: &Probes) {
     for h in handles {
         h.join().unwrap();
     }
-    // every shard has capacity 1 here: the cache can hold at most one entry per distinct shard
+    // at most `per_shard` entries per distinct shard, and never more entries than distinct keys
     let shards: std::collections::BTreeSet<usize> = all_keys.iter().map(|k| ((k.0 as usize) * 31 + k.1 as usize) % 64).collect();
-    if cache.len() > shards.len() {
-        violate!("over-capacity :: {} entries cached for keys that map to {} single-entry shards", cache.len(), shards.len());
+    if cache.len() > shards.len() * per_shard.max(1) {
+        violate!("over-capacity :: {} entries cached for keys that map to {} shards of {} entries", cache.len(), shards.len(), per_shard);
+    }
+    if cache.len() > all_keys.len() {
+        violate!("duplicate-entry :: {} entries cached although only {} distinct keys were ever requested", cache.len(), all_keys.len());
+    }
+    // every key still cached must resolve to a page carrying one of its own patterns
+    for k in &all_keys {
+        if let Some(r) = cache.get(&PageKey::new(k.0, k.1)) {
+            let b = r.data()[0];
+            match key_of_pattern(b, &all_keys) {
+                Some(kk) if kk == *k && r.data().iter().all(|x| *x == b) => {}
+                Some(kk) if kk != *k => violate!("other-keys-data :: at the end key {:?} resolves to a page holding the pattern of key {:?}", k, kk),
+                _ => violate!("mixed-page-content :: at the end key {:?}: page content is not one pattern written for this key", k),
+            }
+        }
     }
     let cached = cache.len();
     let used = budget.stats().cache_used;
